@@ -1,34 +1,411 @@
+// nutsim is the simulation runner: it is built against a scratch copy of
+// nutsdb whose os/time/sync/... imports point at the simulator.
+//
+//	nutsim check  -prop C01 -tier quick|thorough     search + shrink + evidence (exit 0/1/2)
+//	nutsim worker ...                                one worker process (internal)
+//	nutsim replay -file replays/C01-123.json         re-execute a replay file
+//	nutsim selftest                                  determinism / fidelity self-tests
 package main
 
 import (
+	"encoding/json"
+	"flag"
 	"fmt"
+	"os"
+	"os/exec"
+	"path/filepath"
+	"runtime"
+	"sort"
+	"strconv"
+	"strings"
+	"time"
 
-	"github.com/xujiajun/nutsdb"
-	"verifsim/core"
+	"verifsim/check"
 )
 
-func main() {
-	w := core.NewWorld(1)
-	core.Use(w)
-	opt := nutsdb.DefaultOptions
-	opt.Dir = "/db"
-	opt.SegmentSize = 128
-	db, err := nutsdb.Open(opt)
-	fmt.Println("open", err)
-	for i := 0; i < 10; i++ {
-		err = db.Update(func(tx *nutsdb.Tx) error {
-			return tx.Put("b", []byte(fmt.Sprintf("k%d", i)), []byte("v"), 0)
-		})
-		if err != nil {
-			fmt.Println("put", err)
+const verifDir = "/verif"
+
+func envSeed() uint64 {
+	if s := os.Getenv("VERIF_SEED"); s != "" {
+		if v, err := strconv.ParseUint(s, 10, 64); err == nil {
+			return v
+		}
+		if v, err := strconv.ParseInt(s, 10, 64); err == nil {
+			return uint64(v)
 		}
 	}
-	db.View(func(tx *nutsdb.Tx) error {
-		es, err := tx.GetAll("b")
-		fmt.Println(len(es), err)
-		return nil
-	})
-	fmt.Println(db.Close())
-	fmt.Print(core.TreeDigest(w.Disk.Root))
-	fmt.Println(w.IOPTotal, w.FMPTotal, w.Stats.IOByKind)
+	return 20260921
+}
+
+func main() {
+	if len(os.Args) < 2 {
+		fmt.Fprintln(os.Stderr, "usage: nutsim check|worker|replay|selftest ...")
+		os.Exit(2)
+	}
+	switch os.Args[1] {
+	case "check":
+		os.Exit(cmdCheck(os.Args[2:]))
+	case "worker":
+		os.Exit(cmdWorker(os.Args[2:]))
+	case "replay":
+		os.Exit(cmdReplay(os.Args[2:]))
+	case "selftest":
+		os.Exit(cmdSelftest(os.Args[2:]))
+	case "gen":
+		os.Exit(cmdGen(os.Args[2:]))
+	}
+	fmt.Fprintln(os.Stderr, "unknown subcommand", os.Args[1])
+	os.Exit(2)
+}
+
+func cmdWorker(args []string) int {
+	fs := flag.NewFlagSet("worker", flag.ExitOnError)
+	prop := fs.String("prop", "", "")
+	tier := fs.String("tier", "quick", "")
+	seed := fs.Uint64("seed", 1, "")
+	k := fs.Int("k", 0, "")
+	stride := fs.Int("stride", 1, "")
+	secs := fs.Float64("secs", 10, "")
+	maxRuns := fs.Int("max", 0, "")
+	out := fs.String("out", "", "")
+	fs.Parse(args)
+	s := check.Specs[*prop]
+	if s == nil {
+		fmt.Fprintln(os.Stderr, "unknown property", *prop)
+		return 2
+	}
+	res := check.Worker(s, *tier, *seed, *k, *stride, *maxRuns, time.Now().Add(time.Duration(*secs*float64(time.Second))))
+	b, _ := json.Marshal(res)
+	if *out == "" {
+		os.Stdout.Write(b)
+		return 0
+	}
+	if err := os.WriteFile(*out, b, 0644); err != nil {
+		fmt.Fprintln(os.Stderr, err)
+		return 2
+	}
+	return 0
+}
+
+func cmdGen(args []string) int {
+	fs := flag.NewFlagSet("gen", flag.ExitOnError)
+	prop := fs.String("prop", "", "")
+	tier := fs.String("tier", "quick", "")
+	run := fs.Int("run", 0, "")
+	fs.Parse(args)
+	s := check.Specs[*prop]
+	if s == nil {
+		return 2
+	}
+	seed := check.RunSeed(envSeed(), s.ID, *run)
+	p := s.GenProgram(seed, *tier)
+	fmt.Printf("seed=%d\n%s", seed, p.String())
+	res := s.Exec(seed, p)
+	for _, v := range res.Viol {
+		fmt.Println("  ", v.String())
+	}
+	fmt.Printf("nontrivial=%v loghash=%x io=%v probes=%v faults=%v images=%d\n", res.Nontrivial, res.LogHash, res.IO, res.Probes, res.Faults, res.Images)
+	return 0
+}
+
+func cmdReplay(args []string) int {
+	fs := flag.NewFlagSet("replay", flag.ExitOnError)
+	file := fs.String("file", "", "")
+	fs.Parse(args)
+	rp, err := check.ReadReplay(*file)
+	if err != nil {
+		fmt.Fprintln(os.Stderr, "replay:", err)
+		return 2
+	}
+	ok, vs := check.Reproduce(rp)
+	fmt.Printf("replay %s property=%s seed=%d\n%s", *file, rp.Prop, rp.Seed, rp.Program.String())
+	for _, v := range vs {
+		fmt.Println("  ", v.String())
+	}
+	if ok {
+		fmt.Printf("REPRODUCED property=%s sig=%s\n", rp.Prop, rp.Violation.Sig)
+		return 1
+	}
+	fmt.Printf("NOT-REPRODUCED property=%s sig=%s\n", rp.Prop, rp.Violation.Sig)
+	return 0
+}
+
+func scratchParent() string {
+	if p := os.Getenv("VERIF_SCRATCH"); p != "" {
+		return p
+	}
+	return os.TempDir()
+}
+
+func cmdCheck(args []string) int {
+	fs := flag.NewFlagSet("check", flag.ExitOnError)
+	prop := fs.String("prop", "", "")
+	tier := fs.String("tier", "quick", "")
+	secsFlag := fs.Float64("secs", 0, "override the wall budget of the search")
+	workers := fs.Int("workers", 0, "")
+	fs.Parse(args)
+	s := check.Specs[*prop]
+	if s == nil {
+		fmt.Fprintln(os.Stderr, "unknown property", *prop)
+		return 2
+	}
+	if t := os.Getenv("VERIF_TIER"); t != "" && (t == "quick" || t == "thorough") && *tier == "" {
+		*tier = t
+	}
+	start := time.Now()
+	seed := envSeed()
+	secs := float64(s.QuickSecs)
+	if secs == 0 {
+		secs = 45
+	}
+	if *tier == "thorough" {
+		secs = float64(s.ThoroughSecs)
+		if secs == 0 {
+			secs = 600
+		}
+	}
+	if *secsFlag > 0 {
+		secs = *secsFlag
+	}
+	nw := *workers
+	if nw <= 0 {
+		nw = runtime.NumCPU()
+		if nw > 16 {
+			nw = 16
+		}
+	}
+	tmp, err := os.MkdirTemp(scratchParent(), "nutsim-run.")
+	if err != nil {
+		fmt.Fprintln(os.Stderr, "check:", err)
+		return 2
+	}
+	defer os.RemoveAll(tmp)
+
+	self, _ := os.Executable()
+	type wproc struct {
+		cmd *exec.Cmd
+		out string
+	}
+	var procs []wproc
+	for k := 0; k < nw; k++ {
+		out := filepath.Join(tmp, fmt.Sprintf("w%d.json", k))
+		cmd := exec.Command(self, "worker", "-prop", s.ID, "-tier", *tier, "-seed", strconv.FormatUint(seed, 10),
+			"-k", strconv.Itoa(k), "-stride", strconv.Itoa(nw), "-secs", fmt.Sprintf("%g", secs), "-out", out)
+		cmd.Stderr = os.Stderr
+		cmd.Env = append(os.Environ(), "GOMAXPROCS=2")
+		if err := cmd.Start(); err != nil {
+			fmt.Fprintln(os.Stderr, "check: cannot start worker:", err)
+			return 2
+		}
+		procs = append(procs, wproc{cmd, out})
+	}
+	hangs := 0
+	crashed := 0
+	agg := &check.WorkerOut{Prop: s.ID, Probes: map[string]int{}, Faults: map[string]int{}, IO: map[string]int{}}
+	distinct := map[uint64]bool{}
+	states := map[uint64]bool{}
+	scheds := map[uint64]bool{}
+	for _, p := range procs {
+		done := make(chan error, 1)
+		go func() { done <- p.cmd.Wait() }()
+		var werr error
+		select {
+		case werr = <-done:
+		case <-time.After(time.Duration(secs*float64(time.Second)) + 120*time.Second):
+			p.cmd.Process.Kill()
+			<-done
+			hangs++
+			continue
+		}
+		if werr != nil {
+			crashed++
+			fmt.Fprintln(os.Stderr, "check: worker failed:", werr)
+			continue
+		}
+		b, err := os.ReadFile(p.out)
+		if err != nil {
+			crashed++
+			continue
+		}
+		var wo check.WorkerOut
+		if err := json.Unmarshal(b, &wo); err != nil {
+			crashed++
+			continue
+		}
+		agg.Runs += wo.Runs
+		for _, h := range wo.Distinct {
+			distinct[h] = true
+		}
+		for _, h := range wo.States {
+			states[h] = true
+		}
+		for _, h := range wo.Schedules {
+			scheds[h] = true
+		}
+		for k, v := range wo.Probes {
+			agg.Probes[k] += v
+		}
+		for k, v := range wo.Faults {
+			agg.Faults[k] += v
+		}
+		for k, v := range wo.IO {
+			agg.IO[k] += v
+		}
+		agg.SimNS += wo.SimNS
+		agg.Images += wo.Images
+		agg.Inconcl += wo.Inconcl
+		agg.Aborted += wo.Aborted
+		agg.Yields += wo.Yields
+		agg.Switches += wo.Switches
+		agg.Failures = append(agg.Failures, wo.Failures...)
+		if len(agg.Samples) < 3 {
+			agg.Samples = append(agg.Samples, wo.Samples...)
+		}
+	}
+	if hangs > 0 || crashed > 0 {
+		fmt.Fprintf(os.Stderr, "check: %d worker(s) hung, %d crashed — tool trouble, not a verdict\n", hangs, crashed)
+		return 2
+	}
+	searchWall := time.Since(start).Seconds()
+
+	// ---- failures: shrink, verify the replay three times, announce
+	violations := 0
+	sort.Slice(agg.Failures, func(i, j int) bool { return agg.Failures[i].Run < agg.Failures[j].Run })
+	seenSig := map[string]bool{}
+	os.MkdirAll(filepath.Join(verifDir, "replays"), 0755)
+	for _, f := range agg.Failures {
+		sig := f.Viol[0].Sig
+		if seenSig[sig] || len(seenSig) >= 3 {
+			continue
+		}
+		seenSig[sig] = true
+		small := check.Shrink(s, f.Seed, f.Program, sig, 40*time.Second)
+		res := s.Exec(f.Seed, small)
+		var hit *check.Replay
+		for _, v := range res.Viol {
+			if v.Sig == sig {
+				vv := v
+				hit = &check.Replay{Prop: s.ID, Seed: f.Seed, Tier: *tier, Program: small, Violation: vv, All: res.Viol, Original: f.Program}
+				break
+			}
+		}
+		if hit == nil {
+			// shrinking lost it (should not happen): fall back to the original program
+			hit = &check.Replay{Prop: s.ID, Seed: f.Seed, Tier: *tier, Program: f.Program, Violation: f.Viol[0], All: f.Viol}
+		}
+		stable := true
+		for i := 0; i < 3; i++ {
+			if ok, _ := check.Reproduce(hit); !ok {
+				stable = false
+			}
+		}
+		path := filepath.Join(verifDir, "replays", fmt.Sprintf("%s-%d.json", s.ID, f.Seed))
+		if !stable {
+			hit.Note = "WARNING: did not reproduce 3/3 times in-process"
+		}
+		if err := check.WriteReplay(path, hit); err != nil {
+			fmt.Fprintln(os.Stderr, "check: cannot write replay:", err)
+			return 2
+		}
+		if !stable {
+			fmt.Fprintf(os.Stderr, "check: failure of run %d (seed %d) did not replay deterministically; reported as tool trouble\n", f.Run, f.Seed)
+			return 2
+		}
+		violations++
+		fmt.Printf("VIOLATION property=%s replay=%s\n", s.ID, path)
+		fmt.Printf("  %s\n", hit.Violation.String())
+		fmt.Print(indent(hit.Program.String(), "  "))
+	}
+
+	// ---- regression witnesses of repaired defects: a fixed entry suppresses
+	// nothing; if one of them fails again it is reported like any violation
+	regs, _ := filepath.Glob(filepath.Join(verifDir, "regress", s.ID+"-*.json"))
+	sort.Strings(regs)
+	regressRun := 0
+	for _, path := range regs {
+		rp, err := check.ReadReplay(path)
+		if err != nil {
+			fmt.Fprintln(os.Stderr, "check: bad regression witness", path, err)
+			return 2
+		}
+		regressRun++
+		if ok, _ := check.Reproduce(rp); ok {
+			violations++
+			fmt.Printf("VIOLATION property=%s replay=%s\n", s.ID, path)
+			fmt.Printf("  (regression of a repaired defect) %s\n", rp.Violation.String())
+		}
+	}
+
+	// ---- known findings: every listed witness must still reproduce
+	kn := check.RunKnown(s, os.Stdout)
+
+	// ---- evidence
+	ev := map[string]interface{}{
+		"property_id": s.ID,
+		"tier":        *tier,
+		"seed":        seed,
+		"level":       s.Level,
+		"wall_s":      time.Since(start).Seconds(),
+		"violations":  violations,
+		"assumptions": s.Assume,
+	}
+	samples := []interface{}{}
+	for _, sm := range agg.Samples {
+		var v interface{}
+		json.Unmarshal(sm, &v)
+		samples = append(samples, v)
+	}
+	if len(samples) > 3 {
+		samples = samples[:3]
+	}
+	cov := map[string]interface{}{
+		"evaluations":            agg.Runs,
+		"distinct_nontrivial":    len(distinct),
+		"rule":                   s.Rule,
+		"samples":                samples,
+		"runs_per_hour":          int(float64(agg.Runs) / searchWall * 3600),
+		"seeds_per_hour":         int(float64(agg.Runs) / searchWall * 3600),
+		"simulated_seconds":      float64(agg.SimNS) / 1e9,
+		"faults_fired":           agg.Faults,
+		"io_points_by_kind":      agg.IO,
+		"probes":                 agg.Probes,
+		"distinct_model_states":  len(states),
+		"distinct_schedules":     len(scheds),
+		"crash_images_judged":    agg.Images,
+		"inconclusive":           agg.Inconcl,
+		"aborted_runs":           agg.Aborted,
+		"scheduler_yields":       agg.Yields,
+		"scheduler_switches":     agg.Switches,
+		"workers":                nw,
+		"search_wall_s":          searchWall,
+		"known_findings_checked": kn,
+		"regression_witnesses_replayed": regressRun,
+		"components_real":        []string{"nutsdb (package nutsdb, ds/list, ds/set, ds/zset) built from /repo's working tree", "bwmarrin/snowflake", "xujiajun/utils/filesystem", "xujiajun/utils/strconv2", "Go runtime"},
+		"components_simulated":   []string{"file system + page cache (simos/simioutil)", "mmap (simmmap)", "wall clock (simtime)", "math/rand (simrand)", "choice of running goroutine at sync/io points (simsync + scheduler)"},
+	}
+	ev["coverage"] = cov
+	b, _ := json.MarshalIndent(ev, "", " ")
+	os.MkdirAll(filepath.Join(verifDir, "evidence"), 0755)
+	if err := os.WriteFile(filepath.Join(verifDir, "evidence", s.ID+".json"), b, 0644); err != nil {
+		fmt.Fprintln(os.Stderr, "check: cannot write evidence:", err)
+		return 2
+	}
+	fmt.Printf("%s %s: runs=%d distinct_nontrivial=%d states=%d images=%d faults=%v violations=%d known=%d wall=%.1fs\n",
+		s.ID, *tier, agg.Runs, len(distinct), len(states), agg.Images, agg.Faults, violations, kn, time.Since(start).Seconds())
+	if violations > 0 {
+		return 1
+	}
+	if agg.Runs == 0 {
+		fmt.Fprintln(os.Stderr, "check: no runs executed")
+		return 2
+	}
+	return 0
+}
+
+func indent(s, pre string) string {
+	lines := strings.Split(strings.TrimRight(s, "\n"), "\n")
+	for i := range lines {
+		lines[i] = pre + lines[i]
+	}
+	return strings.Join(lines, "\n") + "\n"
 }
